@@ -273,7 +273,20 @@ type MemoKeyMismatch struct {
 // where no store key equals a lookup key.
 func MemoKeyMismatches(f *Func) []MemoKeyMismatch {
 	info := f.Pkg.TypesInfo
-	type use struct{ lookups, stores []ast.Expr }
+	type use struct {
+		lookups, stores         []ast.Expr
+		lookupNodes, storeNodes []ast.Node
+	}
+	parent := ParentMap(f.Decl.Body)
+	loopOf := func(n ast.Node) ast.Node {
+		for p := parent[n]; p != nil; p = parent[p] {
+			switch p.(type) {
+			case *ast.ForStmt, *ast.RangeStmt:
+				return p
+			}
+		}
+		return nil
+	}
 	uses := map[types.Object]*use{}
 	nearOnly := map[types.Object]bool{}
 	isSet := func(e ast.Expr) (types.Object, bool) {
@@ -334,6 +347,7 @@ func MemoKeyMismatches(f *Func) []MemoKeyMismatch {
 			if ix, ok := Unparen(as.Rhs[0]).(*ast.IndexExpr); ok {
 				if o, ok := isSet(ix.X); ok {
 					get(o).lookups = append(get(o).lookups, ix.Index)
+					get(o).lookupNodes = append(get(o).lookupNodes, as)
 				}
 			}
 		}
@@ -341,6 +355,7 @@ func MemoKeyMismatches(f *Func) []MemoKeyMismatch {
 			if ix, ok := Unparen(l).(*ast.IndexExpr); ok {
 				if o, ok := isSet(ix.X); ok {
 					get(o).stores = append(get(o).stores, ix.Index)
+					get(o).storeNodes = append(get(o).storeNodes, as)
 				}
 			}
 		}
@@ -351,8 +366,20 @@ func MemoKeyMismatches(f *Func) []MemoKeyMismatch {
 		if len(u.lookups) == 0 || len(u.stores) == 0 {
 			continue
 		}
-		for _, s := range u.stores {
+		for si, s := range u.stores {
 			match, near := false, ast.Expr(nil)
+			// a visited set is tested and filled for the same entity in the same iteration (or, without
+			// loops, in the same recursive function); a table filled by one loop and consulted by another
+			// (names of one list looked up while walking another) is not a visited set
+			sameLoop := false
+			for li := range u.lookups {
+				if loopOf(u.lookupNodes[li]) == loopOf(u.storeNodes[si]) {
+					sameLoop = true
+				}
+			}
+			if !sameLoop {
+				continue
+			}
 			for _, l := range u.lookups {
 				d := identDiffs(s, l)
 				if SameExpr(info, s, l) || d == 0 || (!nearOnly[o] && sameShape(info, s, l)) {
